@@ -187,7 +187,7 @@ def rule_repaint(ctx: Ctx) -> RuleResult:
     if not ok:
         rr.add(finding("INV", clear, clear.node, "clear() does not reset screen_buf: the next draw skips rows it believes are still on the terminal", construct="clear without screen_buf reset"))
     # methods that must reach clear() / reset
-    for q, why in ((f"{RAW}.Screen.set_terminal_properties", "colour depth / attribute rendering changed"), ("urwid.display._posix_raw_display.Screen._stop", "the alternate buffer is left"), (f"{RAW}.Screen._sigwinch_handler", "the terminal was resized")):
+    for q, why in ((f"{RAW}.Screen.set_terminal_properties", "colour depth / attribute rendering changed"), ("urwid.display._posix_raw_display.Screen._stop", "the alternate buffer is left"), (f"{RAW}.Screen._sigwinch_handler", "the terminal was resized"), (f"{RAW}.Screen._on_update_palette_entry", "the escape sequence an attribute name stands for changed (rows are compared by attribute name)")):
         try:
             fi = p.func(q)
         except AnalysisError:
@@ -405,6 +405,7 @@ def run(ctx: Ctx):
 _RW = "urwid/display/_raw_display_base.py"
 _HT = "urwid/display/html_fragment.py"
 MUTANTS = [
+    Mut("palette-update-without-repaint", _RW, "urwid.display._raw_display_base.Screen._on_update_palette_entry", "        # rows drawn with the old meaning of this name are no longer what the terminal should show\n        self.clear()\n", "", "INV|display._raw_display_base.Screen._on_update_palette_entry"),
     Mut("identity-shortcut-ignores-clear", _RW, "urwid.display._raw_display_base.Screen.draw_screen", "if self.screen_buf and canvas is self._screen_buf_canvas:", "if canvas is self._screen_buf_canvas:", "INV|display._raw_display_base.Screen.draw_screen|identity shortcut"),
     Mut("html-cursor-by-characters", _HT, "HtmlGenerator.draw_screen", "run_width = str_util.calc_width(t_run, 0, len(t_run))", "run_width = len(t_run)", "KIND|display.html_fragment.HtmlGenerator.draw_screen"),
     Mut("back-step-width-of-inserted", _RW, "urwid.display._raw_display_base.Screen._last_row", "return new_row, str_util.calc_width(z_text, 0, len(z_text)), (y_attr, y_cs, y_text)", "return new_row, z_col - y_col, (y_attr, y_cs, y_text)", "TRIPLE|display._raw_display_base.Screen._last_row|back-step"),
